@@ -789,5 +789,130 @@ theorem mergeBy_find {α} (name : α → String) (n : String) (hp lp : List α) 
       | some x => simp
       | none => cases hvn : name v == n <;> simp [hvn]
 
+/-! ## templates, iterators, per-instance resolution -/
+
+theorem flatten_append (pfx : String) (b : List Inbound) (c : List Outbound) (f g : Forest) :
+    flatten pfx b c (f.append g) = flatten pfx b c f ++ flatten pfx b c g := by
+  induction f generalizing pfx b c with
+  | nil => simp [Forest.append, flatten]
+  | agg n bb cc kids next _ ih => simp [Forest.append, flatten, ih]
+  | task n cls h bb cc next ih => simp [Forest.append, flatten, ih]
+
+theorem ownDecls_append (f g : Forest) : ownDecls (f.append g) = ownDecls f ++ ownDecls g := by
+  induction f with
+  | nil => simp [Forest.append, ownDecls]
+  | agg n bb cc kids next _ ih => simp [Forest.append, ownDecls, ih]
+  | task n cls h bb cc next ih => simp [Forest.append, ownDecls, ih]
+
+theorem flatten_foldr_append (pfx : String) (b : List Inbound) (c : List Outbound) (F : String → Forest)
+    (vals : List String) :
+    flatten pfx b c (vals.foldr (fun x acc => (F x).append acc) .nil) =
+      vals.flatMap (fun x => flatten pfx b c (F x)) := by
+  induction vals with
+  | nil => simp [flatten]
+  | cons x xs ih => simp [flatten_append, ih]
+
+theorem ownDecls_foldr_append (F : String → Forest) (vals : List String) :
+    ownDecls (vals.foldr (fun x acc => (F x).append acc) .nil) = vals.flatMap (fun x => ownDecls (F x)) := by
+  induction vals with
+  | nil => simp [ownDecls]
+  | cons x xs ih => simp [ownDecls_append, ih]
+
+theorem foldr_append_flatMap {α β} (F : α → List β) (vals : List α) :
+    vals.foldr (fun x acc => F x ++ acc) [] = vals.flatMap F := by
+  induction vals with
+  | nil => rfl
+  | cons x xs ih => simp [ih]
+
+theorem inst_lit (c : Ctx) (s : String) : Tmpl.inst c [.lit s] = s := by
+  simp [Tmpl.inst, Seg.inst]
+
+theorem OutT_resolve_inst (c c' : Ctx) (o : OutT) : (o.resolve c).inst c' = o.inst c := by
+  simp [OutT.resolve, OutT.inst, inst_lit]
+
+theorem InT_resolve_inst (c c' : Ctx) (b : InT) : (b.resolve c).inst c' = b.inst c := by
+  simp [InT.resolve, InT.inst, inst_lit]
+
+theorem OutT_resolve_idem (c c' : Ctx) (o : OutT) : (o.resolve c).resolve c' = o.resolve c := by
+  simp [OutT.resolve, inst_lit]
+
+theorem InT_resolve_idem (c c' : Ctx) (b : InT) : (b.resolve c).resolve c' = b.resolve c := by
+  simp [InT.resolve, inst_lit]
+
+theorem Cell.resolve_read (x : Cell) : x.resolve.read = x.read := by
+  simp [Cell.resolve, Cell.read, List.map_map, Function.comp_def, OutT_resolve_inst, InT_resolve_inst]
+
+theorem Cell.resolve_idem (x : Cell) : x.resolve.resolve = x.resolve := by
+  simp [Cell.resolve, List.map_map, Function.comp_def, OutT_resolve_idem, InT_resolve_idem]
+
+theorem toT_inst_out (c : Ctx) (o : Outbound) : o.toT.inst c = o := by
+  simp [Outbound.toT, OutT.inst, inst_lit]
+
+theorem toT_inst_in (c : Ctx) (b : Inbound) : b.toT.inst c = b := by
+  simp [Inbound.toT, InT.inst, inst_lit]
+
+theorem expand_toT (c : Ctx) (f : Forest) : expand c f.toT = f := by
+  induction f generalizing c with
+  | nil => rfl
+  | agg n bb cc kids next ih1 ih2 =>
+    simp [Forest.toT, expand, inst_lit, ih1, ih2, List.map_map, Function.comp_def, toT_inst_out, toT_inst_in]
+  | task n cls h bb cc next ih =>
+    simp [Forest.toT, expand, inst_lit, ih, List.map_map, Function.comp_def, toT_inst_out, toT_inst_in]
+
+/-- The loaded tree's own declarations are the cells' contents, each resolved by its own pass. -/
+theorem ownDecls_expand (c : Ctx) (f : TForest) :
+    ownDecls (expand c f) = (cells c f).map Cell.read := by
+  induction f generalizing c with
+  | nil => rfl
+  | agg n bb cc kids next ih1 ih2 => simp [expand, cells, ownDecls, ih1, ih2, Cell.read]
+  | task n cls h bb cc next ih => simp [expand, cells, ownDecls, ih, Cell.read]
+  | iter v vals body next ih1 ih2 =>
+    simp only [expand, cells, ownDecls_append, ownDecls_foldr_append, foldr_append_flatMap, ih1, ih2,
+      List.map_append, List.map_flatMap]
+
+theorem getElem?_modAt {α} (f : α → α) (l : List α) (i j : Nat) :
+    (modAt f l i)[j]? = if j = i then l[j]?.map f else l[j]? := by
+  induction l generalizing i j with
+  | nil => simp [modAt]
+  | cons x xs ih =>
+    cases i with
+    | zero => cases j <;> simp [modAt]
+    | succ i => cases j <;> simp [modAt, ih]
+
+theorem processOrder_get (st : List Cell) (ord : List Nat) (j : Nat) :
+    (processOrder st ord)[j]? = if j ∈ ord then st[j]?.map Cell.resolve else st[j]? := by
+  unfold processOrder
+  induction ord generalizing st with
+  | nil => simp
+  | cons i ord ih =>
+    simp only [List.foldl_cons, ih, getElem?_modAt, List.mem_cons]
+    by_cases hji : j = i
+    · subst hji
+      by_cases hjo : j ∈ ord
+      · simp only [hjo, or_true, if_true]
+        cases st[j]? <;> simp [Cell.resolve_idem]
+      · simp [hjo]
+    · by_cases hjo : j ∈ ord <;> simp [hji, hjo]
+
+theorem processOrder_all (st : List Cell) (ord : List Nat) (hall : ∀ j, j < st.length → j ∈ ord) :
+    processOrder st ord = st.map Cell.resolve := by
+  apply List.ext_getElem?
+  intro j
+  rw [processOrder_get, List.getElem?_map]
+  by_cases hj : j < st.length
+  · simp [hall j hj]
+  · have : st[j]? = none := by simp; omega
+    simp [this]
+
+theorem Forest.append_nil (f : Forest) : f.append .nil = f := by
+  induction f with
+  | nil => rfl
+  | agg n bb cc kids next _ ih => simp [Forest.append, ih]
+  | task n cls h bb cc next ih => simp [Forest.append, ih]
+
+theorem flatMap_single {α β} (g : α → β) (l : List α) : l.flatMap (fun x => [g x]) = l.map g := by
+  induction l with
+  | nil => rfl
+  | cons x xs ih => simp [ih]
 
 end Channels
